@@ -98,6 +98,9 @@ def compile_script(fd, kind, cfg, seq, delivery, alphabet, filler=True, touchscr
         steps.append({'op': 'lines', 'hex': hexs(fd.part1), 'n': 6})
         steps.append({'op': 'age', 'ms': 1600})
         steps.append({'op': 'lines', 'hex': hexs(fd.part2), 'n': 9})
+        # keep the second-phase aircraft alive while the screens are read (message counts are not compared here)
+        steps.append({'op': 'filler', 'on': True,
+                      'cycle': [hexs(b'*5dab3d17d4ba29;\n')] + [hexs(fd.lines[i]) for i in (6, 9, 12)]})
         e2 = expect_of(fd.t2)
         expect = {'rows': None, 'n': e2['n'], 'icaos': [r['icao'] for r in e2['rows']],
                   'added': fd.t1['added_events'] + fd.t2['added_events'],
@@ -370,7 +373,8 @@ ASSUMPTIONS = [
     'map oracle is geometric only: pairwise order of labels, axes centred, 2d labels twice as far as d labels with a quantisation tolerance of 2 cells (3 for differences of two labels)',
     'aircraft labels are drawn 20 plot units above the aircraft, therefore rows of aircraft are compared as differences, columns against the axis',
     '--disable-lat-long is used so that labels are the bare callsigns (no overlap); a cell wider than its column is compared by its column-width prefix',
-    'snapshots are taken at a heartbeat (complete frame) after 3 heartbeats following the last key',
+    "synchronisation is causal, never a sleep: terminal input counts as delivered when /proc/<pid>/io:rchar of the subject grew by the bytes written; feed bytes when the subject's TCP acknowledged them (TIOCOUTQ == 0); a heartbeat (ESC[?25l) counts as emitted after an injection when its offset in the output stream exceeds /proc/<pid>/io:wchar read after the injection; consumed feed lines are bounded by one per such heartbeat",
+    'snapshots are complete frames (taken at a heartbeat), 2 heartbeats emitted after the subject read the last key',
 ]
 
 
